@@ -64,7 +64,12 @@ def gen_c16(rng, tier, n):
                 lines.append("optreg %d %d %d 0 %d" % (a, b, b, 30 + j))
             if rng.random() < 0.5:
                 lines.append("optreg %d %d %d 0 39" % (rng.choice(names), rng.choice(names), rng.choice(names)))
-        lines.append("errh %d" % rng.randint(0, 1))
+        if rng.random() < 0.25:
+            lines.insert(rng.randint(0, len(lines)), "opterrh")       # WithUpcastErrorHandler among the options of New
+            if rng.random() < 0.3:
+                lines.append("errh %d" % rng.randint(0, 1))
+        else:
+            lines.append("errh %d" % rng.randint(0, 1))
         for j in range(rng.randint(2, 16)):
             r = rng.random()
             if r < 0.75:
@@ -105,7 +110,7 @@ def gen_c17(rng, tier, n):
         k = rng.choice([2, 3, 4, 5, 6])
         names = list(range(1, k + 1))
         rng.shuffle(names)
-        lines = ["errh %d" % (1 if rng.random() < 0.7 else 0)]
+        lines = ["opterrh"] if rng.random() < 0.2 else ["errh %d" % (1 if rng.random() < 0.7 else 0)]
         shape = rng.choice(["chain", "branch", "multi", "random"])
         tag = [10]
         def reg(a, b, fails=0, ret=None):
@@ -192,4 +197,4 @@ def property_fails(prop, lines, impl, model):
     return "diff"
 
 def protect(line):
-    return line.startswith("errh")
+    return line.startswith("errh") or line.startswith("opterrh")
